@@ -397,9 +397,11 @@ func ruleC12(c *Ctx) {
 			c.Guard(nrule, f, tr, "accept head name", nil, atom("volume-head- prefix", `strings.HasPrefix($0,"volume-head-")`), atom(".img suffix", `strings.HasSuffix($0,".img")`))
 		}
 	}
-	// revert additionally needs the snapshot's metadata
+	// revert additionally needs the snapshot's metadata, and the target must be a snapshot (the
+	// current head is removed by the revert: a head name as target leaves a head without parent)
 	if fn := c.P.Fn(fRep + "revertDisk"); fn != nil {
 		c.Guard(nrule, fn, CallsTo(fn, fRep+"createNewHead"), "new head on snapshot", nil,
+			atom("target is a snapshot name (not a head)", isNilAtom("replica.GetSnapshotNameFromDiskName($1)#1")),
 			atom("snapshot data file exists", isNilAtom("os.Stat("+fRep+"diskPath($0,$1))#1")),
 			atom("snapshot metadata exists", isNilAtom("os.Stat("+fRep+`diskPath($0,($1 + ".meta")))#1`)))
 	}
@@ -614,6 +616,38 @@ func ruleC12Chain(c *Ctx) {
 			c.Bad(rule, "remaining snapshot count = max - len(activeDiskData)", c.P.Pos(rm.Pos()), "the advertised remaining-snapshot count no longer matches createDisk's limit", nil)
 		}
 	}
+}
+
+func ruleC12Rollback(c *Ctx) {
+	const rule = "C12-ROLLBACK"
+	c.Doc(rule, "createDisk's deferred cleanup unlinks <new snapshot> and <new snapshot>.meta when the call fails; it may therefore only run for files this call created: before the first effect (createNewHead) the function has established that neither file exists (or that no snapshot is being created)")
+	fn := c.Anchor(rule, fRep+"createDisk")
+	if fn == nil {
+		return
+	}
+	// the cleanup really removes the snapshot name (otherwise nothing to protect)
+	removes := false
+	for _, cl := range Closures(fn) {
+		CR := NewRenderer(cl)
+		for _, rm := range CallsTo(cl, fRep+"rmDisk") {
+			if strings.Contains(callRender(CR, rm), "^var(string#1)") {
+				removes = true
+			}
+		}
+	}
+	nh := CallsTo(fn, fRep+"createNewHead")
+	if len(nh) != 1 {
+		c.Bad(rule, FnName(fn)+" | structure", "", "expected one createNewHead call", nil)
+		return
+	}
+	if !removes {
+		c.OK(rule, FnName(fn)+" | cleanup does not unlink the snapshot name", c.P.InstrPos(nh[0]), "nothing to protect", false)
+		return
+	}
+	noSnap := eqAtom(`""`, "var(string#1)")
+	c.Guard(rule, fn, nh, "first effect", nil,
+		atom("snapshot data file does not exist yet", noSnap, notNilAtom("os.Stat("+fRep+"diskPath($0,var(string#1)))#1")),
+		atom("snapshot metadata file does not exist yet", noSnap, notNilAtom("os.Stat("+fRep+`diskPath($0,(var(string#1) + ".meta")))#1`)))
 }
 
 func ruleC12Publish(c *Ctx) {
